@@ -836,10 +836,12 @@ val spec_table :
 val model_lattice :
   'a1 vops -> config -> (int, 'a1) op list -> (int, 'a1) state
 
+val halve_magnetization : 'a1 vops -> (int, 'a1) op list -> (int, 'a1) op list
+
 val model_poly :
   'a1 -> ('a1 -> 'a1 -> 'a1) -> ('a1 -> 'a1 -> 'a1) -> ('a1 -> 'a1) -> ('a1
   -> bool) -> 'a1 vops -> (int -> int -> int -> int) -> config -> bool ->
-  (int, 'a1) op list -> 'a1 poly outcome
+  bool -> (int, 'a1) op list -> 'a1 poly outcome
 
 val poly_table :
   'a1 -> 'a1 -> ('a1 -> 'a1 -> 'a1) -> ('a1 -> 'a1 -> 'a1) -> ('a1 -> 'a1) ->
@@ -866,8 +868,8 @@ val q_spec_table :
   (((int * int) * int) * int) list -> int -> qop list -> q list list
 
 val q_model_poly :
-  (((int * int) * int) * int) list -> int -> config -> bool -> qop list -> q
-  poly outcome
+  (((int * int) * int) * int) list -> int -> config -> bool -> bool -> qop
+  list -> q poly outcome
 
 val q_model_results : config -> qop list -> (int, q) obs outcome list
 
@@ -887,8 +889,8 @@ val c_spec_table :
   (((int * int) * int) * int) list -> int -> cop list -> qC list list
 
 val c_model_poly :
-  (((int * int) * int) * int) list -> int -> config -> bool -> cop list -> qC
-  poly outcome
+  (((int * int) * int) * int) list -> int -> config -> bool -> bool -> cop
+  list -> qC poly outcome
 
 val c_model_results : config -> cop list -> (int, qC) obs outcome list
 
